@@ -12,7 +12,7 @@ import (
 
 // C03: unconsumed arguments are conserved, in order.
 
-var c03Decl = &GenCfg{Depth: 2, Fanout: 2, MaxOpts: 3, MaxGroups: 1, NestGroups: 1, Kinds: []Kind{KBool, KString, KInt, KStringSlice, KBoolSlice, KMapSS, KFloat64, KTri, KUpper},
+var c03Decl = &GenCfg{Depth: 2, Fanout: 2, MaxOpts: 3, MaxGroups: 1, NestGroups: 1, Kinds: []Kind{KBool, KString, KInt, KStringSlice, KBoolSlice, KMapSS, KFloat64, KTri, KUpper, KToggle},
 	Pos: true, PosPct: 65, Ns: true, Req: 0, OptArg: true, Aliases: true, SubOpt: 60, NonASCII: true,
 	ParserOpts: []flags.Options{flags.PassDoubleDash, flags.PassAfterNonOption, flags.IgnoreUnknown}}
 
